@@ -386,7 +386,32 @@ pub fn c03_visit_depth(ctx: &StateCtx, acc: &mut Acc, nest: u32) {
             if o0 != o2 {
                 return Err(format!("observables changed by push/pop round trips: {}", diff_obs(&o0, &o2)));
             }
-            Ok(list.len())
+            // (a') excursions that END with a query in the child (what a search does at a leaf: generate, stand pat,
+            // take back): state hidden from the dump (lazily cached answers) must not leak into the parent's answers
+            let checked0: Vec<String> = moves(&mut g, true).iter().map(|m| m.uci_notation()).collect();
+            let unchecked0: Vec<String> = list.iter().map(|m| m.uci_notation()).collect();
+            for m in list.iter() {
+                for child_query in [false, true] {
+                    g.push(*m);
+                    let _ = moves(&mut g, child_query);
+                    g.pop(*m);
+                    let c1: Vec<String> = moves(&mut g, true).iter().map(|m| m.uci_notation()).collect();
+                    if c1 != checked0 {
+                        return Err(format!("after push({}), get_moves({}) in the child and take-back, the checked list is {:?}, before it was {:?}", m.uci_notation(), child_query, c1, checked0));
+                    }
+                    g.push(*m);
+                    let _ = moves(&mut g, child_query);
+                    g.pop(*m);
+                    let u1: Vec<String> = moves(&mut g, false).iter().map(|m| m.uci_notation()).collect();
+                    if u1 != unchecked0 {
+                        return Err(format!("after push({}), get_moves({}) in the child and take-back, the unchecked list is {:?}, before it was {:?}", m.uci_notation(), child_query, u1, unchecked0));
+                    }
+                }
+            }
+            if g.verif_dump() != d0 {
+                return Err("child-query excursions changed the game".to_string());
+            }
+            Ok(list.len() * 5)
         });
         match r {
             Err(p) => {
